@@ -170,7 +170,8 @@ def source(plan):
               ("        hook_point('set_w')     # fails after it has changed the instance" if plan.get("w_late") else "        self._w = v"),
               "    @w.deleter", "    def w(self):", "        self._w = 0",
               *(["        hook_point('del_w')     # fails after it has changed the instance"] if plan.get("w_late") else []),
-              "    @property", "    @Field(dependencies=w)", "    def w2(self) -> int:", "        return self._w * 2"]
+              # (in some plans nothing depends on w: a setter that fails late is then the only reason for a rollback)
+              *([] if plan.get("w_alone") else ["    @property", "    @Field(dependencies=w)", "    def w2(self) -> int:", "        return self._w * 2"])]
     if plan.get("inherit") and L[-1] == "    pass" and len(fs) > 0:
         pass
     src = "\n".join(L + tail) + "\n"
@@ -242,6 +243,7 @@ def generate(rng, tier):
     plan["hp"] = "hid" in fs and "pos" in fs and base == "schema" and rng.random() < 0.5
     plan["wd"] = rng.random() < 0.2
     plan["w_late"] = "w" in fs and rng.random() < 0.4
+    plan["w_alone"] = "w" in fs and rng.random() < 0.35
     plan["dbl"] = base == "schema" and rng.random() < 0.3
     # no field without a default (and no immutable one): clear() and popitem() can go all the way
     plan["noreq"] = "fin" not in fs and rng.random() < 0.35
@@ -280,7 +282,7 @@ def generate(rng, tier):
         init[rng.choice(["x1", "x2"])] = {"$r": pool.next()} if o["addition"] == "leaf" else rng.choice([1, "u", [1]])
     plan["init"] = init
     init_pids = list(pool.used)
-    targets = [k for k in fs] + (["wd", "wd"] if plan.get("wd") else []) + (["w2"] if "w" in fs else []) + (["nkind"] if "num" in fs and rng.random() < 0.3 else [])
+    targets = [k for k in fs] + (["wd", "wd"] if plan.get("wd") else []) + (["w2"] if "w" in fs and not plan.get("w_alone") else []) + (["nkind"] if "num" in fs and rng.random() < 0.3 else [])
     nops = rng.choice([6, 8, 10, 14, 20]) if tier == "quick" else rng.choice([8, 12, 16, 24])
     ops = []
     schema_ops = ["setattr", "setattr", "delattr", "setitem", "setitem", "delitem", "update_m", "update_kw", "pop", "pop_d",
@@ -416,7 +418,7 @@ class View:
         self.extra = {}
         is_schema = plan["base"] == "schema"
         names = {}
-        all_kinds = list(plan["fields"]) + (["w2"] if "w" in plan["fields"] else []) + (["hsum"] if plan.get("hsum") else []) + (["nkind"] if "num" in plan["fields"] else []) + (["tt"] if plan.get("tt") else []) + (["tb", "td"] if plan.get("diamond") else []) + (["cdep"] if "camF" in plan["fields"] else []) + (["adep"] if "camA" in plan["fields"] else []) + (["hp"] if plan.get("hp") else []) + (["wd"] if plan.get("wd") else []) + (["ratio", "r2"] if plan.get("ratio") else []) + (["dbl"] if plan.get("dbl") else [])
+        all_kinds = list(plan["fields"]) + (["w2"] if "w" in plan["fields"] and not plan.get("w_alone") else []) + (["hsum"] if plan.get("hsum") else []) + (["nkind"] if "num" in plan["fields"] else []) + (["tt"] if plan.get("tt") else []) + (["tb", "td"] if plan.get("diamond") else []) + (["cdep"] if "camF" in plan["fields"] else []) + (["adep"] if "camA" in plan["fields"] else []) + (["hp"] if plan.get("hp") else []) + (["wd"] if plan.get("wd") else []) + (["ratio", "r2"] if plan.get("ratio") else []) + (["dbl"] if plan.get("dbl") else [])
         for k in all_kinds:
             names[FIELD_INFO[k]["name"]] = k
         if is_schema:
@@ -469,7 +471,7 @@ def check_invariants(plan, inst, initial, res, opname, field, current=True, touc
             out.append(("I3", "class", "instance of an immutable class changed"))
     # I4 key view and attribute view agree
     if is_schema:
-        for k in list(fs) + (["w2"] if "w" in fs else []) + (["hsum"] if plan.get("hsum") else []) + (["nkind"] if "num" in fs else []) + (["tt"] if plan.get("tt") else []) + (["tb", "td"] if plan.get("diamond") else []) + (["cdep"] if "camF" in plan["fields"] else []) + (["adep"] if "camA" in plan["fields"] else []) + (["hp"] if plan.get("hp") else []) + (["wd"] if plan.get("wd") else []) + (["ratio", "r2"] if plan.get("ratio") else []) + (["dbl"] if plan.get("dbl") else []):
+        for k in list(fs) + (["w2"] if "w" in fs and not plan.get("w_alone") else []) + (["hsum"] if plan.get("hsum") else []) + (["nkind"] if "num" in fs else []) + (["tt"] if plan.get("tt") else []) + (["tb", "td"] if plan.get("diamond") else []) + (["cdep"] if "camF" in plan["fields"] else []) + (["adep"] if "camA" in plan["fields"] else []) + (["hp"] if plan.get("hp") else []) + (["wd"] if plan.get("wd") else []) + (["ratio", "r2"] if plan.get("ratio") else []) + (["dbl"] if plan.get("dbl") else []):
             if k == "hid":
                 if "hid" in v.keys:
                     out.append(("I4", k, "no_output field present in the key view"))
